@@ -563,7 +563,7 @@ def run(prog: Program, rep: Report, tier: str):
     rep.rule("R12.1", "no call-time state write that is read back (frozen latches excepted)", floor=3)
     rep.rule("R12.2", "memoised mutable results do not escape through routine/API returns; no memoised one-shot objects", floor=40)
     rep.rule("R12.3", "key granularity of memoised functions (triaged candidates)", floor=5)
-    rep.rule("R12.4", "memoised functions are free of ambient reads", floor=40)
+    rep.rule("R12.4", "memoised functions are free of ambient reads", floor=30)
     rep.rule("R12.5", "memoised decoders receive hashable carriers (shared with R14.3)", floor=1)
     rep.rule("R12.6", "no mutable defaults; no module-level container mutated from a function (slotted guard excepted)", floor=1)
     rep.rule("R12.7", "no unmarshal/serdes path mutates its input", floor=25)
